@@ -395,12 +395,15 @@ PROPS = {
         "claim": ("Test binaries built with the race detector. (a) Concurrent actors in one virtual-time bubble against a real BgpServer: "
                   "one goroutine per scripted peer (2-4 peers; announce / withdraw / bursts / session flap / ROUTE-REFRESH) and one or "
                   "two management goroutines (AddPath / DeletePath, ListPath / ListPeer, policy replacement, soft resets, "
-                  "Disable/EnablePeer, DeletePeer + AddPeer, UpdatePeer, AddVrf / DeleteVrf, watchers that come and go), with the "
+                  "Disable/EnablePeer, DeletePeer + AddPeer, UpdatePeer, AddVrf / DeleteVrf, EnableMrt / DisableMrt with dumps left enabled "
+                  "at Stop, watchers that come and go), with the "
                   "verif yield points steered from the case's seed and GOMAXPROCS varied per shard. No race report, no panic; every "
                   "API call returns and the scenario finishes within a real-time budget (a lock cycle cannot be passed by the fake "
                   "clock); afterwards every peer can establish a session and ListPeer answers; Stop() leaves no goroutine of the "
-                  "bubble behind. (b) The C01 histories (racing operations, focused prefixes, steered schedules) under the race detector."),
-        "note": ("Active-open connections, BMP/MRT/zebra/RPKI clients and gRPC transport are not part of the scenarios; a schedule "
+                  "bubble behind. (b) The C01 histories (racing operations, focused prefixes, steered schedules) under the race detector. "
+                  "(c) The active-peer histories of C07 (outgoing connection manager, collisions) under the race detector. (d) A real-time "
+                  "probe: the client of an unreachable BMP station ends after Stop."),
+        "note": ("zebra/RPKI clients, connected BMP stations and gRPC transport are not part of the scenarios; a schedule "
                  "that needs a yield inside a critical section other than the hooked ones is not forced."),
         "technique": "stateful property-based testing (rapid) of concurrent actor scripts under the race detector, schedule steering through build-tagged yield points, goroutine-leak and liveness oracles",
         "rule": ("non-trivial when at least one management actor ran and at least three API calls were made concurrently with peer "
@@ -409,6 +412,7 @@ PROPS = {
         "units": [
             {"pkg": S, "test": "TestVerifC20", "race": True, "quick": (16, 25), "thorough": (16, 3000), "timeout_q": 1500, "gomaxprocs": [1, 2, 4, 8]},
             {"pkg": S, "test": "TestVerifC01", "race": True, "quick": (8, 25), "thorough": (16, 1500), "timeout_q": 1500, "gomaxprocs": [2, 4, 8]},
+            {"pkg": S, "test": "TestVerifC07_active", "race": True, "quick": (8, 60), "thorough": (16, 3000), "timeout_q": 1500, "gomaxprocs": [2, 4, 8]},
         ],
     },
     "C12": {
